@@ -234,6 +234,24 @@ def judge(case, rep, S):
                      "non_dict": "rejected_non_dict", "padded_missing": "rejected_padded_missing_key",
                      "empty": "rejected_empty_mapping"}[kind])
             rep.cnt("render_after_reject")
+        r3 = gen.sub_rng(case["o"] ^ (0x2020 + step), ID)          # own generator: the ordinary stream stays what it was
+        if r3.random() < 0.3:
+            # None and a call without the dictionary are not palettes either: refused, and the palette in force stays
+            rep.cnt("none_or_missing_argument_requests")
+            for form_ in ("None", "no argument", "colorDict=None"):
+                try:
+                    if form_ == "None":
+                        obj.set_HTMLColorResiduePalette(None)
+                    elif form_ == "no argument":
+                        obj.set_HTMLColorResiduePalette()
+                    else:
+                        obj.set_HTMLColorResiduePalette(colorDict=None)
+                except Exception:
+                    rep.cnt("rejected_non_dict")
+                else:
+                    rep.viol("invalid_accepted", "set_HTMLColorResiduePalette(%s) was accepted (history %s)" % (form_, hist), sig={"kind": "none_or_no_argument"})
+                    return
+            hist.append("None / no argument")
         ctx = "after %s update #%d, history %s" % ("accepted" if accepted else "rejected", step + 1, hist)
         for o, s, m in zip(objs, seqs, models):
             check_render(rep, o.get_HTMLColorString(), s, m, ctx)
